@@ -47,12 +47,22 @@ impl<'p> Painter<'p> {
     // a file section the language may be replaced by that of the new name, not reset to the default
     //@ stub src/paint.rs Painter::set_syntax spec=paint.set_syntax_for_the_new_name as=set_syntax_for_the_new_name
 }
+/// what `parse_diff_header_line` takes from a file header line: the path (or mode) and the file event (U34 has it under contract)
+pub uninterp spec fn parsed_header(line: Seq<char>, git_diff_name: bool) -> (Seq<char>, FileEvent);
+/// `utils::path::relativize_path_maybe`: the path as shown under --relative-paths; uninterpreted
+pub uninterp spec fn relativized(path: Seq<char>, config: &Config) -> Seq<char>;
+/// the line is a `new file mode` / `deleted file mode` line of a file header
+pub open spec fn hdr_fileop_test(sm: &StateMachine) -> bool {
+    (sm.state is DiffHeader || sm.source == Source::DiffUnified) && (is_prefix("deleted file mode "@, sm.line@) || is_prefix("new file mode "@, sm.line@))
+}
 //@ stub src/handlers/diff_header.rs parse_diff_header_line
+//@| ensures r.0@ == parsed_header(line@, git_diff_name).0 && r.1 == parsed_header(line@, git_diff_name).1,
 //@ stub src/handlers/diff_header.rs get_filename_from_marker_line
 //@ stub src/handlers/diff_header.rs get_filename_from_diff_header_line_file_path
 //@ stub src/handlers/diff_header.rs get_repeated_file_path_from_diff_line spec=diff_header.get_repeated
 //@ stub src/handlers/diff_header.rs get_file_change_description_from_file_paths
 //@ stub src/utils/path.rs relativize_path_maybe
+//@| ensures final(path)@ == relativized(old(path)@, config),
 //@ stub src/utils/path.rs absolute_path
 //@ stub src/features/hyperlinks.rs format_osc8_file_hyperlink
 
@@ -92,9 +102,12 @@ impl<'a> StateMachine<'a> {
     //@| ensures r ==> (self.state is DiffHeader || self.source == Source::DiffUnified),  // @C04,C14:rename.and.copy.lines.are.looked.for.only.in.a.diff.header
     //@|         r == ((self.state is DiffHeader || self.source == Source::DiffUnified) && (is_prefix("deleted file mode "@, self.line@) || is_prefix("new file mode "@, self.line@))),  // @C04,C14:new.file.and.deleted.file.lines.are.claimed.by.their.prefix
     //@ fn src/handlers/diff_header.rs StateMachine::handle_diff_header_file_operation_line spec=diff_header.handle_file_operation
+    //@before <<<let mut handled_line = false; let (_mode_info, file_event) =>>>| proof { axiom_file_pair_eq(); axiom_string_from_str(); }
     //@ fn src/handlers/diff_header_diff.rs StateMachine::test_diff_header_diff_line
     //@| ensures r == is_prefix("diff "@, self.line@),  // @C04,C10,C14:a.file.section.starts.at.a.line.that.starts.with.diff
     //@ fn src/handlers/diff_header_diff.rs StateMachine::handle_diff_header_diff_line spec=diff_header.handle_diff_line
+    //@after <<<self.current_file_pair = Some((self.minus_file.clone(), self.plus_file.clone()));>>>| let ghost h0 = self.painter.writer.hist(); let ghost ob0 = self.painter.output_buffer@;
+    //@before <<<Ok(true)>>>| assert(/* @C04,C14:the.diff.line.is.passed.on.as.it.is.exactly.when.delta.does.not.write.a.file.header.of.its.own.in.its.place */ self.painter.writer.hist() == (if should_handle_spec(&*self) && !self.config.color_only { h0 } else { h0.push(Ev::Flush(ob0)).push(Ev::Text(frl_spec(self.raw_line@, self.config), true)) }));
     //@before <<<self.handle_pending_line_with_diff_name()?;>>>| assert(/* @C10,C14:hdl.pending.header.is.written.with.the.previous.sections.data */ self.diff_line == old(self).diff_line && self.minus_file == old(self).minus_file && self.plus_file == old(self).plus_file && self.mode_info == old(self).mode_info && self.current_file_pair == old(self).current_file_pair && self.handled_diff_header_header_line_file_pair == old(self).handled_diff_header_header_line_file_pair);
     //@ fn src/handlers/mod.rs StateMachine::handle_additional_cases spec=diff_header.handle_additional_cases
     //@before <<<self.state = to_state;>>>| assert(/* @C10,C14:the.mode.information.of.the.section.before.has.gone.into.that.sections.own.header.before.the.header.of.this.line.is.written */ old(self).state is DiffHeader && !(self.config.file_style.is_omitted && !self.config.color_only) ==> self.mode_info@.len() == 0);
